@@ -24,7 +24,7 @@ META = {
               "block; block after leaf; 3-wide; empty blocks incl. empty name), depth <= 3, width <= 3; ONE string slot symbolic at a time "
               "with an exact length per slice: len 0/1 over every code point for every slot of every skeleton (non-ASCII names: on the "
               "small skeletons; quick 3, thorough 6), len 2 over every code point for values (names: ASCII; thorough: every code point on "
-              "leaf/empty), thorough len 3 (values every code point, names ASCII); pairs of slots at len 1 each (names ASCII); other "
+              "leaf), thorough len 3 (leaf value every code point, block name ASCII); pairs of slots at len 1 each (names ASCII); other "
               "slots hold fixed awkward constants; options: indent and start_indent are symbolic strings of spaces/TABs of 1 character "
               "(thorough also 0 and 2), indent_braces symbolic; root and non-root trees; delivery as written pieces, pieces re-cut at "
               "concrete positions 1..5, one joined str, a line-iterating file object, and serialise()'s returned str",
@@ -395,7 +395,7 @@ def _rt1_slices(tier):
     sl = []
     optsets = [(1, 1)]
     for skel in SKEL:
-        high_ok = skel in SMALL or (tier == "thorough" and skel in ("nest", "tworoots", "empties"))
+        high_ok = skel in SMALL or (tier == "thorough" and skel == "nest")
         roots = [1, 0] if (_single_top(skel) and (skel in SMALL or tier == "thorough")) else [1]
         for slot, kind in _slots(skel):
             for rooted in roots:
@@ -428,7 +428,7 @@ def _rt1_slices(tier):
 def _rt2_slices(tier):
     """One slot, length 2 (values: every code point; names: ASCII, and in the thorough tier every code point on two skeletons)."""
     sl = []
-    skels = ["leaf", "block", "nest"] if tier == "quick" else ["leaf", "empty", "block", "nest", "tworoots", "dup", "empties"]
+    skels = ["leaf", "block", "nest"] if tier == "quick" else ["leaf", "empty", "block", "nest", "tworoots"]
     for skel in skels:
         for slot, kind in _slots(skel):
             base = {"skel": skel, "slot": slot, "kind": kind, "ni": 1, "nsi": 1, "n": 2}
@@ -437,7 +437,7 @@ def _rt2_slices(tier):
             elif tier == "thorough" or skel in ("leaf", "block"):
                 sl.append(dict(base, low=1, init=1))
     if tier == "thorough":
-        for skel, slot, kind in (("leaf", 0, "lname"), ("empty", 0, "bname")):
+        for skel, slot, kind in (("leaf", 0, "lname"),):
             for cls in FIRST_CLASSES:
                 sl.append({"skel": skel, "slot": slot, "kind": kind, "ni": 1, "nsi": 1, "n": 2, "cls": cls})
         for skel, slot, kind in (("leaf", 1, "value"), ("block", 2, "value")):
@@ -447,11 +447,10 @@ def _rt2_slices(tier):
 
 def _rt3_slices():
     sl = []
-    for skel, slot, kind in (("leaf", 1, "value"), ("block", 2, "value")):
+    for skel, slot, kind in (("leaf", 1, "value"),):
         for cls in FIRST_CLASSES:
             sl.append({"skel": skel, "slot": slot, "kind": kind, "ni": 1, "nsi": 1, "n": 3, "cls": cls})
     for cls in FIRST_CLASSES[:4]:
-        sl.append({"skel": "leaf", "slot": 0, "kind": "lname", "ni": 1, "nsi": 1, "n": 3, "cls": cls, "low": 1})
         sl.append({"skel": "empty", "slot": 0, "kind": "bname", "ni": 1, "nsi": 1, "n": 3, "cls": cls, "low": 1})
     return sl
 
@@ -511,10 +510,14 @@ def obligations(tier):
     q = tier == "quick"
     big = 900 if q else 3000
     obls = [
-        Obl("rt1", MOD, "h_rt", slices=_rt1_slices(tier), budget_s=big, per_path_s=90,
+        Obl("rt1", MOD, "h_rt", slices=[x for x in _rt1_slices(tier) if x.get("cls") != "high"], budget_s=big, per_path_s=90,
             desc="parse(serialise(t, opts)) == t (shape, order, real names, values) and t untouched; one slot symbolic, len 0/1, every "
-                 "code point; indent / start_indent characters and indent_braces symbolic; root and non-root trees",
+                 "code point for values, code points < U+007F for names; indent / start_indent characters and indent_braces symbolic; "
+                 "root and non-root trees",
             bound="len(s) in {0,1}; indent, start_indent of 1 character each (thorough: 0..2)"),
+        Obl("rt1.hi", MOD, "h_rt", slices=[x for x in _rt1_slices(tier) if x.get("cls") == "high"], budget_s=big, per_path_s=90,
+            desc="same for names of one code point >= U+007F (exact Unicode case folding through CrossHair's tables)",
+            bound="len(s) == 1, small skeletons"),
         Obl("rt1.witness", MOD, "h_rt_w", budget_s=300, per_path_s=90, witness=True,
             slices=[{"skel": "leaf", "slot": 1, "kind": "value", "n": 1, "ni": 1, "nsi": 1},
                     {"skel": "block", "slot": 0, "kind": "bname", "n": 1, "ni": 1, "nsi": 1, "rooted": 0, "cls": "high"},
